@@ -4,6 +4,8 @@ impl State {
     spec fn in_ref(&self) -> int { self.bitstr_mod.input.0 as int }
     spec fn off_ref(&self) -> int { self.bitstr_mod.offset.0 as int }
     spec fn stash_ref(&self) -> int { self.bitstr_mod.stash.0 as int }
+    spec fn out_ref(&self) -> int { self.bitstr_mod.output.0 as int }
+    spec fn outlen_ref(&self) -> int { self.bitstr_mod.output_len.0 as int }
     spec fn big_ref(&self) -> int { self.bitstr_mod.big_endian.0 as int }
     // the session byte order: the variable `big?` (zero = little endian)
     spec fn cur_bo(&self) -> Byteorder { if strip(self.heap@[self.big_ref()]) == Cell::Int(0) { Byteorder::Little } else { Byteorder::Big } }
